@@ -330,6 +330,7 @@ class Ctx:
         self.round_terms = []
         self.round_cache = {}
         self.options = {}
+        self.lazy_axioms = []  # nonlinear facts (e.g. sqrt(t)^2 == t) only given to the solver when an obligation needs them
 
     # -- fresh symbols ---------------------------------------------------------------
     def fresh_name(self, base):
@@ -384,8 +385,10 @@ class Ctx:
         r = self._check() if cond is None else self._check(cond)
         return r != z3.unsat
 
-    def branch(self, cond):
-        """Decide a symbolic condition; explores both sides over re-executions."""
+    def branch(self, cond, strong=False):
+        """Decide a symbolic condition; explores both sides over re-executions.
+        strong: feasibility is decided with the held-back nonlinear axioms as well (used where an infeasible side
+        would end in an exception, e.g. division by zero)."""
         if isinstance(cond, (bool, np.bool_)):
             return bool(cond)
         if type(cond) is Sym:
@@ -404,8 +407,9 @@ class Ctx:
             self.solver.add(cond if d else z3.Not(cond))
             return d
         self.solver.set("timeout", min(self.timeout_ms, 2000))  # feasibility only prunes: unknown => both sides explored
-        rt = self._check(cond)
-        rf = self._check(z3.Not(cond))
+        extra = list(self.lazy_axioms) if strong else []
+        rt = self._check(cond, *extra)
+        rf = self._check(z3.Not(cond), *extra)
         self.solver.set("timeout", self.timeout_ms)
         if rt == z3.unknown or rf == z3.unknown:
             self.unknown_branches += 1
@@ -462,6 +466,10 @@ class Ctx:
             ob.backend = "simplify"
         else:
             r = self._check(z3.Not(cond))
+            if r != z3.unsat and self.lazy_axioms:
+                # second stage: with the nonlinear axioms that were held back
+                r = self._check(z3.Not(cond), *self.lazy_axioms)
+                ob.backend = "z3+lazy-axioms"
             if r == z3.unsat:
                 ob.status = "discharged"
             elif r == z3.sat:
@@ -510,7 +518,7 @@ class Ctx:
                         cons += [c >= -60, c <= 60]
                 if not cons:
                     return None
-                if self.solver.check(z3.Not(cond), *cons) == z3.sat:
+                if self.solver.check(z3.Not(cond), *cons, *self.lazy_axioms) == z3.sat:
                     return self.solver.model()
         except z3.Z3Exception:
             pass
@@ -541,7 +549,7 @@ class Ctx:
         """pose pc & not(cond) to z3's nlsat after replacing applications of uninterpreted functions by
         fresh constants (sound for 'unsat': the abstraction only forgets congruence)."""
         try:
-            asserts = list(self.solver.assertions()) + [z3.Not(cond)]
+            asserts = list(self.solver.assertions()) + list(self.lazy_axioms) + [z3.Not(cond)]
             table = {}
 
             def abstract(e):
